@@ -108,6 +108,27 @@ def qToFloatNeedDigits (p denDigits : Nat) : Nat := min (p + denDigits) usizeMax
     gives 0 in the first case) -/
 def qToFloatShift (p numDigits denDigits : Nat) : Nat := qToFloatNeedDigits p denDigits - numDigits
 
+-- ------------------------------------------------------------------ Context::powi working precisions (round 6)
+
+/-- `Context::powi` (float/src/exp.rs:126-127), negative exponent: `Context::<R::Reverse>::new(self.precision + guard_bits)` with
+    `guard_bits = self.precision.bit_len() * 2` — as a NUMBER (the code adds in unchecked `usize`) -/
+def fPowiRevPrecision (p : Nat) : Nat := p + bitLen p * 2
+
+/-- `Context::powi` (exp.rs:145-146), limited precision: `Context::<R>::new(self.precision + guard_digits)` with
+    `guard_digits = exp.bit_len() + self.precision.bit_len()` — as a NUMBER -/
+def fPowiWorkPrecision (p e : Nat) : Nat := p + (bitLen e + bitLen p)
+
+/-- both sums of `powi(x, e)` at context precision `p` stay inside `usize`, in the order of the code: unlimited precision adds
+    nothing; a negative exponent first builds the reversed context (line 127) and calls itself with `|e|` at that precision; the
+    shortcuts `exp = 0` / `exp = 1` return before line 146.  `false` = the class of finding float_precision_usize_overflow
+    (debug builds: 'attempt to add with overflow'; release builds: wrapped working precision). -/
+def fPowiPrecisionFits (p : Nat) (e : Int) : Bool :=
+  if p = 0 then true
+  else if e < 0 then
+    decide (fPowiRevPrecision p ≤ usizeMax) &&
+      (decide (e.natAbs ≤ 1) || decide (fPowiWorkPrecision (fPowiRevPrecision p) e.natAbs ≤ usizeMax))
+  else decide (e.natAbs ≤ 1) || decide (fPowiWorkPrecision p e.natAbs ≤ usizeMax)
+
 -- ------------------------------------------------------------------ folds
 
 /-- `Sum` / `Product` for FBig (float/src/iter.rs:12-28): `iter.fold(ZERO, add)` / `fold(ONE, mul)`; every step runs
